@@ -4,6 +4,7 @@ from __future__ import annotations
 import re
 
 import build as B
+import nav_hist as NH
 import common as H
 from common import Case
 from props.C15 import call, onat, bl
@@ -59,7 +60,12 @@ class Prop:
             "whose many siblings (and top-level nodes) hold equal-comparing data of several sorts (value-equal objects, equal tuples, "
             "equal ints, equal frozen dataclasses, equal strings) under distinct data_ids; every query of node.py:373-540 on every node, "
             "every ordered pair for the ancestor/descendant/common-ancestor tests, up(k) for k=0..depth+1, Tree.calc_height, tree.children / get_toplevel_nodes / first_child / last_child / len / "
-            "count and count_descendants of the system root.  "
+            "count and count_descendants of the system root.  Trees REACHED THROUGH A HISTORY: creation orders different from pre-order "
+            "(before=node/index/True inserts), every single remove / remove(keep_children) / remove_children / move_to onto the own "
+            "parent (every `before`) on every node of every forest <= 4 nodes incl. only children that lost their siblings first, and "
+            "random histories (remove, keep_children, remove_children, move_to, sort, clear + re-add, add, set_data); the model input is "
+            "the forest read by pointers after the history, the oracle also compares it with an independently maintained shadow forest "
+            "and checks parent/children agreement by identity both ways.  "
             "A case is one tree; distinct = distinct (typed, shape, labeling); non-trivial = >= 3 nodes")
     exhaustive_note = "all shapes <= N nodes (N=5 quick) x 3 labelings"
     assumptions = ["identity of nodes is the allocation index recorded by a harness-side wrapper of Node.__init__"]
@@ -151,15 +157,52 @@ class Prop:
             # one sort only: every sibling compares equal to every other
             one = rng.choice([0, 2, 4, 6, 8])
             yield dict(univ=EQ_UNIV, nodes=B.shape_to_nodes(shape, lambda i, d, s, one=one: (one + (i % 2), None, f"k{i}")))
+        # (h) trees REACHED THROUGH A HISTORY (nav_hist.py).  aimed: every single op on every node of every small forest,
+        #     moves onto the own parent with every `before`, only children that lost their siblings first
+        for n in range(1, 5):
+            for shape in H.forests(n):
+                nodes = B.shape_to_nodes(shape, lambda i, d, s: (i % len(EQ_UNIV), None, f"k{i}"))
+                hs = list(NH.aimed(nodes, n))
+                if n == 4 and tier == "quick":
+                    hs = rng.sample(hs, len(hs) // 3)
+                for hist in hs:
+                    yield dict(univ=EQ_UNIV, nodes=nodes, hist=hist)
+        #     creation order different from pre-order (before=<node>/<index>/True inserts), no further history
+        for _ in range(20 if tier == "quick" else 150):
+            n = rng.randint(3, 14)
+            shape = H.random_shape(rng, n, deep=rng.choice([0.2, 0.5, 0.8]))
+            yield dict(univ=EQ_UNIV, nodes=B.shape_to_nodes(shape, lambda i, d, s: (i % len(EQ_UNIV), None, f"k{i}")),
+                       order_seed=rng.randrange(10 ** 6), hist=[])
+        #     random histories (remove, remove(keep_children), remove_children, move_to, sort, clear + re-add, add, set_data)
+        for _ in range(40 if tier == "quick" else 400):
+            n = rng.randint(3, 12)
+            shape = H.random_shape(rng, n, deep=rng.choice([0.2, 0.5, 0.8]))
+            typed = rng.random() < 0.25
+            nodes = B.shape_to_nodes(shape, lambda i, d, s: (i % len(EQ_UNIV), "ab"[(i + d) % 2] if typed else None, f"k{i}"))
+            d = dict(univ=EQ_UNIV, nodes=nodes, order_seed=rng.choice([None, rng.randrange(10 ** 6)]),
+                     hist=NH.random_hist(rng, n, len(EQ_UNIV), typed, rng.randint(1, 6)))
+            if typed:
+                d["typed"] = True
+            yield d
 
     def shrink_candidates(self, desc):
+        if "hist" in desc:
+            yield from NH.shrink_hist(desc)
+            return
         for nodes in B.drop_one_node(desc["nodes"]):
             yield dict(desc, nodes=nodes)
 
     def run(self, desc) -> Case:
+        hist_fail = None
         try:
-            tree, U = B.build(desc)
+            if "hist" in desc:
+                tree, U, objs, sh, errors = NH.build_hist(desc)
+                hist_fail = NH.consistency(tree, objs, sh, errors)
+            else:
+                tree, U = B.build(desc)
         except Exception:
+            if "hist" in desc:
+                raise
             # labeling (c) may collide under one parent for some shapes: make ids explicit
             d2 = dict(desc)
             cnt = [0]
@@ -181,7 +224,7 @@ class Prop:
         local[0] = 0
 
         def lid(x):
-            return -1 if x is None else local[H.nid(x)]
+            return -1 if x is None else local.get(H.nid(x), -7)   # -7: a node that is not reachable from the root
 
         def on(x):
             if isinstance(x, tuple) and x and x[0] == "ERR":
@@ -247,10 +290,11 @@ class Prop:
                     num(call(lambda: tree.system_root.count_descendants())),
                     num(call(lambda: tree.system_root.count_descendants(leaves_only=True)))]
         obs = [per_node, pairs, num(call(lambda: tree.calc_height())), tree_obs]
-        fail = self.oracle(tree, nodes, obs, lid)
+        fail = hist_fail or self.oracle(tree, nodes, obs, lid)
         coq_in = re.sub(r"\(Tz (\d+) ", lambda m: f"(Tz {local[int(m.group(1))]} ", H.coq_forest(tree._root, U))
         return Case(desc=desc, coq_input=coq_in, impl_obs=obs, oracle_fail=fail,
-                    nontrivial=len(nodes) >= 3, key=H.digest([bool(desc.get("typed")), desc["univ"], desc["nodes"]]),
+                    nontrivial=len(nodes) >= 3 or bool(desc.get("hist")),
+                    key=H.digest([bool(desc.get("typed")), desc["univ"], desc["nodes"], desc.get("order_seed"), desc.get("hist")]),
                     stats=dict(nodes=len(nodes), depth=B.nodes_depth(desc["nodes"]), typed=int(typed),
                                max_sibs=max((len(p._children or []) for p in [tree._root] + nodes), default=0)))
 
